@@ -160,7 +160,7 @@ Step(c, t) ==
          [] t.o = "sub" -> [c EXCEPT !.nsub = @ + 1]
          [] t.o = "fmt" -> IF c.fmt # "" \/ t.v \notin Formats THEN [c EXCEPT !.err = TRUE] ELSE [c EXCEPT !.fmt = t.v]
          [] t.o = "data" -> IF c.data THEN [c EXCEPT !.err = TRUE] ELSE [c EXCEPT !.data = TRUE]
-         [] t.o = "file" -> IF c.data \/ t.v # "ok" THEN [c EXCEPT !.err = TRUE] ELSE [c EXCEPT !.data = TRUE]
+         [] t.o = "file" -> IF c.data \/ t.v \notin {"ok", "empty"} THEN [c EXCEPT !.err = TRUE] ELSE [c EXCEPT !.data = TRUE]
          [] t.o = "count" -> [c EXCEPT !.count = t.n, !.countSet = TRUE]
          [] t.o = "interval" -> IF t.v # "ok" THEN [c EXCEPT !.err = TRUE]
                                 ELSE [c EXCEPT !.ival = t.n, !.count = IF c.countSet THEN c.count ELSE -1]
@@ -203,7 +203,7 @@ HasTok(ts, P(_)) == \E i \in 1..Len(ts) : P(ts[i])
 BadTok(t) == \/ t.o \in {"extra", "unknown", "noval"}
              \/ t.o \in {"bind", "connect", "interval", "rt", "st", "delay"} /\ t.v # "ok"
              \/ t.o = "fmt" /\ t.v \notin Formats
-             \/ t.o = "file" /\ t.v # "ok"
+             \/ t.o = "file" /\ t.v \notin {"ok", "empty"}
 TheProto(ts) == ts[CHOOSE i \in 1..Len(ts) : ts[i].o = "proto"].v
 Rejected(ts) ==
   LET isProto(t) == t.o = "proto"
